@@ -307,6 +307,13 @@ where
     }
 }
 
+#[cfg(bma400_verif)]
+impl IntPinConfig {
+    pub(crate) fn verif_regs(&self) -> [(u8, u8); 4] {
+        verif_regs!(self; int1_map, int2_map, int12_map, int12_io_ctrl)
+    }
+}
+
 #[cfg(test)]
 mod tests {
     use super::*;
